@@ -26,15 +26,38 @@ pub fn fix_fn_param_idents(sig: &mut syn::Signature) {
     }
 
     if lift_inner_pat_idents(sig).is_ok() {
+        // a lifted identifier may be the one that shadows the function
+        fix_ident_conflicts(sig);
         return;
     }
 
     autogenerate_for_non_idents(sig);
+    fix_ident_conflicts(sig);
+}
+
+fn all_binding_idents(sig: &mut syn::Signature) -> HashSet<String> {
+    struct Collector(HashSet<String>);
+
+    impl syn::visit_mut::VisitMut for Collector {
+        fn visit_pat_ident_mut(&mut self, i: &mut syn::PatIdent) {
+            self.0.insert(i.ident.to_string());
+            syn::visit_mut::visit_pat_ident_mut(self, i);
+        }
+    }
+
+    let mut collector = Collector(HashSet::new());
+    for fn_arg in sig.inputs.iter_mut() {
+        if let syn::FnArg::Typed(pat_type) = fn_arg {
+            collector.visit_pat_mut(pat_type.pat.as_mut());
+        }
+    }
+    collector.0
 }
 
 fn fix_ident_conflicts(sig: &mut syn::Signature) -> ParamStatus {
     let mut status = ParamStatus::Ok;
     let fn_ident_string = sig.ident.to_string();
+    let mut taken_idents = all_binding_idents(sig);
 
     for fn_arg in sig.inputs.iter_mut() {
         let arg_status = match fn_arg {
@@ -48,7 +71,12 @@ fn fix_ident_conflicts(sig: &mut syn::Signature) -> ParamStatus {
 
                     if param_ident.ident == fn_ident_string {
                         // format_ident handles raw identifiers (`r#match` -> `r#match_`)
-                        param_ident.ident = quote::format_ident!("{}_", param_ident.ident);
+                        let mut new_ident = quote::format_ident!("{}_", param_ident.ident);
+                        while taken_idents.contains(&new_ident.to_string()) {
+                            new_ident = quote::format_ident!("{}_", new_ident);
+                        }
+                        taken_idents.insert(new_ident.to_string());
+                        param_ident.ident = new_ident;
                     }
 
                     ParamStatus::Ok
